@@ -42,11 +42,35 @@ func openReader(name string, ctx context.Context, stream []byte) anyIter {
 		return ftdc.ReadMatrix(ctx, r)
 	case "series":
 		return ftdc.ReadSeries(ctx, r)
+	case "citer", "csiter":
+		// the per-chunk iterators of the first chunk (the chunk iterator itself is drained and closed first)
+		ci := ftdc.ReadChunks(context.Background(), r)
+		if !ci.Next() {
+			ci.Close()
+			return emptyIter{}
+		}
+		c := ci.Chunk()
+		for ci.Next() {
+		}
+		ci.Close()
+		if name == "citer" {
+			return c.Iterator(ctx)
+		}
+		return c.StructuredIterator(ctx)
 	}
 	panic("reader " + name)
 }
 
+type emptyIter struct{}
+
+func (emptyIter) Next() bool { return false }
+func (emptyIter) Err() error { return nil }
+func (emptyIter) Close()     {}
+
 var readerNames = []string{"chunks", "metrics", "structured", "matrix", "series"}
+
+// the readers of the close/cancel stream also include the per-chunk iterators
+var closeReaderNames = []string{"chunks", "metrics", "structured", "matrix", "series", "citer", "csiter"}
 
 var hookPoints = []string{"catcher.Add", "ReadChunks.diagnostic.close", "ReadChunks.chunks.close", "readDiagnostic.send",
 	"readChunks.send", "combined.send", "combined.end", "matrix.send", "sample.send"}
@@ -275,10 +299,13 @@ func streamSchedClose(o *Out, rng *rand.Rand, thorough bool, _ []string) {
 	}
 	var lines []string
 	for si, st := range shapes {
-		for _, rd := range readerNames {
+		for _, rd := range closeReaderNames {
 			total := map[string]int{"chunks": len(topDocs(st)), "matrix": len(topDocs(st)), "series": len(topDocs(st))}[rd]
 			if total == 0 {
 				total = []int{3, 250, 60, 8}[si]
+			}
+			if rd == "citer" || rd == "csiter" {
+				total = []int{3, 250, 1, 2}[si] // samples of the first chunk
 			}
 			ks := []int{0, 1, 2, total / 2, total - 1, total, total + 1}
 			if thorough {
@@ -308,7 +335,7 @@ func streamSchedClose(o *Out, rng *rand.Rand, thorough bool, _ []string) {
 	}
 	for i := 0; i < np; i++ {
 		st := shapes[rng.Intn(len(shapes))]
-		lines = append(lines, fmt.Sprintf("sched-close %s %s %d %d %s", readerNames[rng.Intn(len(readerNames))],
+		lines = append(lines, fmt.Sprintf("sched-close %s %s %d %d %s", closeReaderNames[rng.Intn(len(closeReaderNames))],
 			[]string{"close", "cancel"}[rng.Intn(2)], rng.Intn(70), 1+rng.Int63n(1<<30), hx(st)))
 	}
 	runIsolated(o, lines, 30*time.Second)
